@@ -60,7 +60,7 @@ func runC01(c *Check) error {
 	c.ExploreNeeds(needs, nil)
 	// the corpus (test snippets + grammar sentences) as written, and with one symbolic
 	// byte inserted / replaced / deleted at every n-th offset (S3)
-	every := tierEvery(c, 18, 6)
+	every := tierEvery(c, 24, 6)
 	for _, ver := range []string{"7.4", "5.6"} {
 		whole, err := c.wholeJobs("H_C01", ver, 3_000_000, false)
 		if err != nil {
